@@ -10,6 +10,7 @@ def dispatch (line : String) : String :=
   | "filt" :: rest => filtEngine rest
   | "unpack" :: rest => unpackEngine rest
   | "pack" :: rest => packEngine rest
+  | "pick" :: rest => pickEngine rest
   | _ => "bad-op"
 
 partial def loop (hin hout : IO.FS.Stream) : IO Unit := do
